@@ -454,7 +454,43 @@ def r10_6(chk):
     chk.floor("R10.6", 2, "two history-state classes")
 
 
+def r10_7(chk):
+    chk.rule("R10.7", "what defines a substitution model is in its serialised form: every named parameter of an __init__ in the substitution-model modules is captured into self._serialisable in that __init__ (the `d = locals(); self._serialisable.update(d)` idiom, or an explicit store), or handed by name to a base-class __init__ / into **kw that does -- a parameter consumed locally (the genetic code of the codon models) is otherwise silently replaced by its default on reload")
+    n = 0
+    for rel in ("evolve/substitution_model.py", "evolve/ns_substitution_model.py"):
+        m = chk.repo.module(rel)
+        for cname, ci in m.classes.items():
+            init = ci.methods.get("__init__")
+            if not isinstance(init, ast.FunctionDef):
+                continue
+            # only classes of the model hierarchy (they own or inherit _serialisable)
+            try:
+                mro_names = {c.name for c in ci.mro()}
+            except AnalysisError:
+                continue
+            if "_SubstitutionModel" not in mro_names:
+                continue
+            named = [a.arg for a in init.args.args[1:] + init.args.kwonlyargs if a.arg not in ("alphabet",)]
+            if not named:
+                continue
+            src = init
+            captures_locals = any(isinstance(c, ast.Call) and call_name(c) == "locals" for c in ast.walk(src)) and any(isinstance(x, ast.Attribute) and x.attr == "_serialisable" for x in ast.walk(src))
+            for p_ in named:
+                n += 1
+                stored = any(isinstance(x, ast.Subscript) and isinstance(x.ctx, ast.Store) and isinstance(x.value, ast.Attribute) and x.value.attr == "_serialisable" and isinstance(x.slice, ast.Constant) and x.slice.value == p_ for x in ast.walk(src)) or any(isinstance(c, ast.Call) and isinstance(c.func, ast.Attribute) and c.func.attr == "update" and isinstance(c.func.value, ast.Attribute) and c.func.value.attr == "_serialisable" and any(kw.arg == p_ for kw in c.keywords) for c in ast.walk(src))
+                forwarded = False
+                for c in ast.walk(src):
+                    if isinstance(c, ast.Call) and isinstance(c.func, ast.Attribute) and c.func.attr == "__init__":
+                        if any(kw.arg == p_ for kw in c.keywords) or any(isinstance(a, ast.Name) and a.id == p_ for a in c.args):
+                            forwarded = True
+                    if isinstance(c, ast.Subscript) and isinstance(c.ctx, ast.Store) and isinstance(c.value, ast.Name) and c.value.id in ("kw", "kwargs") and isinstance(c.slice, ast.Constant) and c.slice.value == p_:
+                        forwarded = True
+                chk.decide(captures_locals or stored or forwarded, "R10.7", key(m, f"{cname}.__init__", f"parameter {p_} serialised"), m.loc(init), "captured by locals() / stored / forwarded by name", f"`{p_}` is used inside {cname}.__init__ but never reaches self._serialisable (not captured, not stored, not handed to a base __init__ by name): to_rich_dict() omits it and the model is rebuilt with the default -- get_model('CNFGTR', gc=4) reloads over the standard genetic code")
+    chk.floor("R10.7", 6, "named constructor parameters in the substitution-model hierarchy")
+
+
 def run(chk):
+    r10_7(chk)
     r10_6(chk)
     r10_1(chk)
     r10_2(chk)
